@@ -26,6 +26,9 @@ fn main() {
         ("c20", "replay") => yv::c20::replay(&args),
         ("c04", "record") => yv::c04::record(&args),
         ("c04", "replay") => yv::c04::replay(&args),
+        ("c01", "record") => yv::c01::record(&args),
+        ("c01", "replay") => yv::c01::replay(&args),
+        ("c01", "route") => yv::c01::route(&args),
         ("c18", "record") => yv::c18::record(&args),
         ("c19", "record") => yv::c19::record(&args),
         ("c19", "replay") => yv::c19::replay(&args),
